@@ -91,12 +91,30 @@ def selector_witness(res):
             res.violation("C19.3.selector-all-runtimes", f, "<selector>", comp, line, "with OpenMP, Specx and StarPU all enabled the selector header does not build: " + msg[:300])
 
 
+def ordering_agreement(res):
+    """C19.4: what distinguishes the documented configurations at run time is the ordering class; the non-default ones can only satisfy
+    exactly-once "like the default configuration does" if their list builders are the default's (rule C11.3: Hilbert vs Morton atom by atom,
+    per-group vs per-cell builder inside each class, coordinate forms identified only when proven equal bit for bit for that ordering)"""
+    import c11
+    import tbf
+    facts = tbf.scan("core")
+    sub = tbf.Result("C11")
+    c11.sibling_builders(facts, sub)
+    R = "C19.4.ordering-agreement"
+    for i in sub.instances:
+        res.instance(R, i["key"], i["at"], i["detail"])
+    for v in sub.violations:
+        res.violation(R, v["file"], v["function"], v["key"], v["line"], v["msg"] + " - the configurations using this ordering no longer visit the interactions the default configuration visits")
+    res.floor(R, len(sub.instances), 12, "sibling comparisons")
+
+
 def run(res, tier):
+    res.rule("C19.4 ordering agreement: Hilbert and Morton list builders equal atom by atom; per-group and per-cell builders of each ordering agree, coordinate forms identified only under a bit-provenance proof for that ordering")
     res.rule("C19.1 every documented configuration (dim 1-4 x float/double x Morton/periodic/Hilbert(3D) x auto/explicit block x rebuild x 5 executors x data type =/!= real x 0/1 result values) type-checks")
     res.rule("C19.2 include-guard macros unique across src/")
     res.rule("C19.3 selector header builds with OpenMP+Specx+StarPU all defined")
     res.trusted += ["g++ 12.2 / clang++ 14 front ends", "witness generator rules/witness.py (configuration -> TU)", "thorough: declaration-only Specx/StarPU stubs"]
-    res.assumptions.append("only the build half of the statement is decided; that these configurations then satisfy C01/C06/C13 is not (see DESIGN.md)")
+    res.assumptions.append("decided: the build half of the statement, and (C19.4) that the orderings share the default ordering's list-building logic; that these configurations then satisfy C01/C06/C13 numerically is not (see DESIGN.md)")
     include_guards(res)
     allc = witness.all_configs()
     quick = witness.quick_configs()
@@ -122,6 +140,7 @@ def run(res, tier):
         res.violation("C19.1.config-compiles", f, "<witness %s>" % nm, key, line, "configuration %s does not compile (%s): %s" % (nm, comp, msg[:240]))
     res.floor("C19.1", len(runs), 20, "witness compilations")
     selector_witness(res)      # one compilation; in both tiers
+    ordering_agreement(res)
     res.explanation = ("compile witnesses: each documented template configuration is turned into a TU that constructs the tree, executes, rebuilds and exports; "
                        "the compiler's acceptance is the proof obligation. %d obligations, %d discharged. Include guards: %d headers."
                        % (res.obligations, res.discharged, len([i for i in res.instances if i['rule'] == 'C19.2.include-guard'])))
